@@ -1,4 +1,5 @@
 import HC.Prelude
+import HC.Extracted.Guards
 /-!
 # Model of `hypercorn/middleware/{proxy_fix,dispatcher,http_to_https}.py`
 
@@ -23,7 +24,8 @@ def getTrusted (name : Bytes) (hs : Headers) (hops : Nat) : Option Bytes :=
   if hops = 0 then none
   else
     let vs := values name hs
-    if vs.length ≥ hops then vs[vs.length - hops]? else none
+    -- the comparison operator is the one extracted from `len(values) >= trusted_hops`
+    if Extracted.Guards.proxyEnoughCmp.eval vs.length hops then vs[vs.length - hops]? else none
 
 structure Scope where
   kind : String                      -- scope["type"]
